@@ -7,10 +7,10 @@ from vlib.zutil import TI, TB, z_and, z_or
 # table kinds: columns (name, kind); kinds: 'sid' (SequenceID, symbolic bytes, per-row width), 'int', 'strand', 'seq' (str, ragged)
 TABLES = {
     "interval": [("chromosome", "sid"), ("start", "int"), ("stop", "int")],
-    "bed6": [("chromosome", "sid"), ("start", "int"), ("stop", "int"), ("name", "sid"), ("score", "int"), ("strand", "strand")],
+    "bed6": [("chromosome", "sid"), ("start", "int"), ("stop", "int"), ("name", "sid0"), ("score", "int"), ("strand", "strand")],
     "seqentry": [("name", "sid"), ("sequence", "seq")],
 }
-WIDTHS = {"sid": [1, 2, 1, 3], "seq": [2, 0, 3, 1]}
+WIDTHS = {"sid": [1, 2, 1, 3], "sid0": [2, 0, 1, 3], "seq": [2, 0, 3, 1]}     # sid0: an identifier column with one empty name
 
 
 def declare(V, skel, prefix="t"):
@@ -48,7 +48,7 @@ def observe(ctx, skel, t):
     out = {"len": len(t)}
     for nm, kind in TABLES[skel["table"]]:
         v = getattr(t, nm)
-        out[nm] = ctx.lst(v.raw()) if kind in ("sid", "strand") else ctx.lst(v)
+        out[nm] = ctx.lst(v.raw()) if kind in ("sid", "sid0", "strand") else ctx.lst(v)
     return out
 
 
@@ -66,7 +66,7 @@ def model_rows(skel, g, prefix="t"):
     return rows
 
 
-OPS = ("fancy", "mask", "slice_tail", "slice_rev", "concat", "sort_by", "replace", "add_fields", "single", "rows_roundtrip")
+OPS = ("fancy", "mask", "slice_tail", "slice_rev", "concat", "sort_by", "replace", "add_fields", "add_fields_twice", "single", "rows_roundtrip")
 
 
 class TableOps(Harness):
@@ -83,7 +83,7 @@ class TableOps(Harness):
         n = 3 if tier == "quick" else 4
         for tab in TABLES:
             for op in OPS:
-                if op in ("sort_by", "replace", "add_fields", "rows_roundtrip") and tab == "seqentry":
+                if op in ("sort_by", "replace", "add_fields", "add_fields_twice", "rows_roundtrip") and tab == "seqentry":
                     continue
                 out.append(dict(table=tab, n=n, op=op))
             if tier == "thorough":
@@ -132,6 +132,12 @@ class TableOps(Harness):
             return replace(t, start=ctx.arr([x[f"new{k}_{j}"] for j in range(n)], "int64"))
         if op == "add_fields":
             return t.add_fields({"extra": ctx.arr([x[f"new{k}_{j}"] for j in range(n)], "int64")}, field_type_map={"extra": int})
+        if op == "add_fields_twice":
+            # the same operand is extended twice with different field names; the second result must not see the first field
+            t.add_fields({"first_extra": ctx.arr([x[f"new1_{j}"] for j in range(n)], "int64")}, field_type_map={"first_extra": int})
+            r = t.add_fields({"extra": ctx.arr([x[f"new{k}_{j}"] for j in range(n)], "int64")}, field_type_map={"extra": int})
+            assert not hasattr(r, "first_extra"), "field added to another result leaked into this one"
+            return r
         if op == "single":
             return t[1:2]
         raise ValueError(op)
@@ -147,7 +153,7 @@ class TableOps(Harness):
             for r in range(skel["n"]):
                 row = []
                 for c, (nm, kind) in enumerate(TABLES[skel["table"]]):
-                    row.append(names[r] if kind == "sid" else (x[f"t{r}_{c}"] if kind == "int" else "+-."[r % 3]))
+                    row.append(names[r] if kind in ("sid", "sid0") else (x[f"t{r}_{c}"] if kind == "int" else "+-."[r % 3]))
                 tuples.append(tuple(row))
             tab = cls.from_entry_tuples(tuples)
             back = tab.tolist()
@@ -158,7 +164,7 @@ class TableOps(Harness):
         if skel.get("then"):
             r = self._apply(skel["then"], r, x, ctx, 1, log, skel)
         res = dict(result=observe(ctx, dict(skel), r), operand=observe(ctx, skel, t), log=log)
-        if skel["op"] == "add_fields" or skel.get("then") == "add_fields":
+        if skel["op"] in ("add_fields", "add_fields_twice") or skel.get("then") == "add_fields":
             res["extra"] = ctx.lst(r.extra)
         return res
 
@@ -179,7 +185,7 @@ class TableOps(Harness):
             return rows + rows[:2]
         if op == "replace":
             return [[row[0], g(f"new{k}_{j}")] + list(row[2:]) for j, row in enumerate(rows)]
-        if op == "add_fields":
+        if op in ("add_fields", "add_fields_twice"):
             return [list(row) + [g(f"new{k}_{j}")] for j, row in enumerate(rows)]
         if op == "single":
             return rows[1:2]
